@@ -237,6 +237,7 @@ func c16(c *Ctx) {
 	c16PeerMessages(c, "C16.12/peer-messages-nil-checked")
 	c16ReadLoopsEnd(c, "C16.13/read-loops-end-with-the-input")
 	c16DecodedCountBoundsAllocation(c, "C16.16/decoded-size-is-bounded-before-it-allocates")
+	c16TxRecordWithinLog(c, "C16.17/tx-record-lies-within-the-log")
 	c16InnerNodeNotEmpty(c, "C16.15/decoded-inner-node-is-not-empty")
 	c16NoNilNil(c, "C16.14/no-nil-result-without-error", []string{"embedded/appendable/singleapp", "embedded/appendable/multiapp", "embedded/appendable/remoteapp", "embedded/appendable/fileutils", "embedded/appendable", "embedded/store", "embedded/tbtree", "embedded/ahtree", "embedded/htree", "embedded/cache", "embedded/multierr", "embedded/watchers", "pkg/database", "pkg/truncator", "pkg/replication", "pkg/stream", "pkg/verification"})
 }
@@ -1251,4 +1252,58 @@ func knownNilAt(v ssa.Value, at *ssa.BasicBlock) bool {
 		}
 	}
 	return false
+}
+
+// c16TxRecordWithinLog: the commit log tells where a transaction lies in the transaction log (offset, size). Only its
+// last entry is validated when the store is opened; the size of any other entry sizes the read buffer of the
+// transaction. It is compared with what the transaction log holds before a reader is built from it.
+func c16TxRecordWithinLog(c *Ctx, r string) {
+	f := c.mustFn(r, storeT+"appendableReaderForTx")
+	if f == nil {
+		return
+	}
+	src := sites(f, callTo(storeT+"txOffsetAndSize"))
+	mk := callTo("embedded/appendable.NewReaderFrom")
+	if len(src) == 0 || len(sites(f, mk)) == 0 {
+		c.undecided(r, fnName(f)+":sites", "txOffsetAndSize / NewReaderFrom not found")
+		return
+	}
+	fromCLog := func(v ssa.Value) bool {
+		return dependsOn(v, func(x ssa.Value) bool {
+			ex, ok := x.(*ssa.Extract)
+			if !ok {
+				return false
+			}
+			cl, ok := ex.Tuple.(*ssa.Call)
+			return ok && calleeName(&cl.Call) == storeT+"txOffsetAndSize"
+		})
+	}
+	fromLogSize := func(v ssa.Value) bool {
+		return dependsOn(v, func(x ssa.Value) bool {
+			ex, ok := x.(*ssa.Extract)
+			if !ok {
+				return false
+			}
+			cl, ok := ex.Tuple.(*ssa.Call)
+			return ok && cl.Call.IsInvoke() && cl.Call.Method.Name() == "Size"
+		})
+	}
+	cmp := func(in ssa.Instruction) bool {
+		bo, ok := in.(*ssa.BinOp)
+		if !ok {
+			return false
+		}
+		switch bo.Op {
+		case token.LSS, token.GTR, token.LEQ, token.GEQ:
+		default:
+			return false
+		}
+		return (fromCLog(bo.X) && fromLogSize(bo.Y)) || (fromCLog(bo.Y) && fromLogSize(bo.X))
+	}
+	q := &pathQ{fn: f, from: src, to: mk, via: cmp, barrier: errEdgeOf(src[0])}
+	if w := q.bypass(); w != nil {
+		c.fail(r, fnName(f)+":size-compared-with-the-log", c.pos(src[0].Pos()), "the size found in a commit-log entry reaches the reader of the transaction (which allocates it) without having been compared with the size of the transaction log: "+c.witnessStr(w))
+	} else {
+		c.ok(r, fnName(f)+":size-compared-with-the-log", c.pos(src[0].Pos()), "offset and size of the record are compared with the size of the transaction log first")
+	}
 }
